@@ -340,8 +340,86 @@ def t_part2b(task, ctx: Ctx):
     env.reset("utf-8")
 
 
+# ---------------------------------------------------------------- part 3: the synchronous get_input() path with window resizes
+SYNC_STREAMS = [b"a", b"ab", b"\x1b[A", b"\x1b[Ab", b"\xc3\xa9", b"\x1b[<0;3;4M", b"\x1bOPq", b"a\x1b[5~"]
+
+
+def sync_run(chunks_, sched):
+    """get_input() called until the schedule of wake-ups is used up (+3 calls).  A wake-up = (deliver the next chunk?, SIGWINCH arrived?)."""
+    scr = screen()
+    scr._started = True
+    scr.prev_input_resize = 0
+    todo = list(chunks_)
+    wakes = list(sched)
+    cur = {"codes": []}
+
+    def wait(timeout):
+        cur["codes"] = []
+        if wakes:
+            d, r = wakes.pop(0)
+            if d and todo:
+                cur["codes"] = list(todo.pop(0))
+            if r:
+                scr._resized = True  # what the SIGWINCH handler does
+        return []
+
+    scr._wait_for_input_ready = wait
+    scr._get_input_codes = lambda: cur.pop("codes", []) or []
+    keys, raws = [], []
+    calls = 0
+    try:
+        while (wakes or calls < 1) and calls < 40:
+            calls += 1
+            k, r = scr.get_input(raw_keys=True)
+            keys.extend(k)
+            raws.extend(r)
+        for _ in range(3):
+            k, r = scr.get_input(raw_keys=True)
+            keys.extend(k)
+            raws.extend(r)
+    finally:
+        del scr._wait_for_input_ready
+        scr._started = False
+        scr._resized = False
+    return keys, raws
+
+
+def t_sync(task, ctx: Ctx):
+    _, mode, stream, depth = task
+    env.reset(MODES[mode])
+    stream = list(stream)
+    want = ref_decode(stream, mode)
+    n = len(stream)
+    for k in range(0, min(2, n - 1) + 1):
+        for cuts in itertools.combinations(range(1, n), k):
+            chunks_ = cut_chunks(stream, cuts)
+            for L in range(len(chunks_), depth + 1):
+                for sched in itertools.product(((True, False), (False, True), (True, True), (False, False)), repeat=L):
+                    if sum(1 for d, _ in sched if d) != len(chunks_) or not any(r for _, r in sched):
+                        continue
+                    ctx.count("evaluations")
+                    case = {"mode": mode, "stream": bytes(stream), "cuts": list(cuts), "sync": [list(x) for x in sched]}
+                    try:
+                        with watchdog(5):
+                            keys, raws = sync_run(chunks_, sched)
+                    except WatchdogTimeout:
+                        ctx.violation("terminates", f"C05/terminates/{mode}/get_input", case, "get_input did not terminate")
+                        continue
+                    except Exception as e:
+                        ctx.violation("no-raise", f"C05/no-raise-sync/{mode}/{exc_site(e)}", case, repr(e))
+                        continue
+                    got = [x for x in keys if x != "window resize"]
+                    if got != want:
+                        ctx.violation("exactly-once", f"C05/exactly-once/{mode}/get_input-with-resize", case, f"get_input() calls returned {keys} in all; the stream decodes to {want}")
+                    if raws != stream:
+                        ctx.violation("left-to-right", f"C05/left-to-right-sync/{mode}", case, f"raw codes {raws} != input {stream}")
+                    ctx.obs(mode, bytes(stream), cuts, sched, tuple(map(str, keys)))
+                    ctx.distinct("nontrivial", ("sync", mode, bytes(stream), cuts, sched))
+    env.reset("utf-8")
+
+
 def dispatch(task, ctx):
-    return {"p1": t_part1, "p1x": t_part1, "p2": t_part2, "p2b": t_part2b}[task[0]](task, ctx)
+    return {"p1": t_part1, "p1x": t_part1, "p2": t_part2, "p2b": t_part2b, "sync": t_sync}[task[0]](task, ctx)
 
 
 def chunks(lst, n):
@@ -380,6 +458,11 @@ def run(tier, R):
     for mode in MODES:
         for part in chunks(subs, 10):
             tasks.append(("p2b", mode, part))
+    for mode in MODES:
+        for st in SYNC_STREAMS:
+            if mode != "utf8" and any(b >= 0x80 for b in st):
+                continue
+            tasks.append(("sync", mode, st, 5 if quick else 7))
     R.run_tasks(dispatch, tasks)
     ev = int(R.ctx.counts["evaluations"])
     cov = {
@@ -394,7 +477,9 @@ def run(tier, R):
         "substitution/insertion/deletion from a 17-byte confusable set inside documented streams; part 2: all "
         f"{len(known)} documented streams (468 table sequences, X10 reports for every button byte, SGR reports buttons 0-127, CPR) + malformed SGR/CPR + "
         "multi-byte characters, alone, doubled, preceded and followed by each alphabet byte, and cut in every way "
-        f"(<= {2 if quick else 9} cuts, <= {1 if quick else 2} time-outs). non-trivial = distinct (stream, cuts, time-outs) executions with a time-out + known streams",
+        f"(<= {2 if quick else 9} cuts, <= {1 if quick else 2} time-outs); part 3: the synchronous get_input() path: 8 streams x <= 2 cuts x every schedule of "
+        f"<= {5 if quick else 7} wake-ups, each delivering the next chunk and/or a window resize or nothing (resize throttling loop included): keys other than "
+        "'window resize' equal the whole decode, raw codes equal the stream; codes handed over as bytearray / tuple after one cut. non-trivial = distinct (stream, cuts, time-outs) executions with a time-out + known streams",
         "exhaustive": True,
         "bounds": {"deviation_bound_timeouts": 1 if quick else 2},
     }
@@ -413,6 +498,13 @@ def replay(case, ctx):
     mode = case["mode"]
     env.reset(MODES[mode])
     stream = list(case["stream"])
+    if "sync" in case:
+        chunks_ = cut_chunks(stream, case["cuts"])
+        sched = [tuple(x) for x in case["sync"]]
+        print("get_input calls:", sync_run(chunks_, sched), "reference:", ref_decode(stream, mode))
+        t_sync(("sync", mode, bytes(stream), len(sched)), ctx)
+        env.reset("utf-8")
+        return
     whole = check_whole(ctx, mode, stream)
     print("whole:", whole, "reference:", ref_decode(stream, mode))
     if "cuts" in case and whole is not None:
